@@ -108,7 +108,8 @@ ResTy(op, ty) ==
 
 -----------------------------------------------------------------------------
 (* labels *)
-MapFn(s, x) == IF s = "inc" THEN x + 1 ELSE x \div 2           \* the two target maps used: "inc", "half"
+\* the target maps used: "inc" (injective), "half" (merges labels), "rot" (0,1,2 -> 1,0,2: not monotone)
+MapFn(s, x) == CASE s = "inc" -> x + 1 [] s = "half" -> x \div 2 [] s = "rot" -> (2 * x + 1) % 3
 Step(k, s, i) == [k |-> k, s |-> s, i |-> i]
 ApplyStep(sp, row) ==
   CASE sp.k = "map" -> [j \in 1..Len(row) |-> MapFn(sp.s, row[j])]
@@ -215,6 +216,7 @@ LabPat(pat, n, nt) ==
   [r \in 1..n |-> [c \in 1..nt |->
      CASE pat = "mod3"  -> ((r - 1) + (c - 1)) % 3
        [] pat = "mod2"  -> (((r - 1) % 2) + 2 * (c - 1)) % 3
+       [] pat = "desc"  -> ((2 - ((r - 1) % 3)) + (c - 1)) % 3      \* labels descending along the samples: 2, 1, 0, 2, ..
        [] pat = "const" -> c % 3 ]]
 
 \* t = 0: one-dimensional targets; t >= 1: two-dimensional with t columns
@@ -238,11 +240,11 @@ CodePol(op, s) ==
 
 Ratios == {<<0, 0>>, <<1, 2>>, <<1, 1>>, <<3, 2>>, <<1, 0>>, <<11184811, 25>>}   \* 0, 1/4, 1/2, 3/4, 1, f32(1/3)
 Perms(n) == {p \in [1..n -> 1..n] : \A a, b \in 1..n : p[a] = p[b] => a = b}
-LabelLists == {<<>>, <<0>>, <<1>>, <<0, 2>>, <<1, 2, 3>>}
+LabelLists == {<<>>, <<0>>, <<1>>, <<0, 2>>, <<2, 0>>, <<1, 1>>, <<3, 1, 2>>, <<9, 1>>}     \* any order, repeats, absent labels
 
 Init ==
   /\ \E n \in 1..MaxN, f \in 1..MaxF, t \in 0..2, w \in BOOLEAN, names \in BOOLEAN, store \in {"owned", "view"},
-        pat \in {"mod3", "mod2"} :
+        pat \in {"mod2", "desc"} :
        /\ lab = LabPat(pat, n, IF t = 0 THEN 1 ELSE t)
        /\ st = InitDs(n, f, t, w, names, store)
   /\ depth = 0 /\ last = "init"
@@ -263,7 +265,7 @@ Ova     == Can("ova") /\ \E l \in Labels1(st, lab) : Do("ova", OpOva(st, l, Code
 Chunk   == Can("chunk") /\ \E c \in 1..2 : \E j \in 0..(NChunks(st, c) - 1) : Do("chunk", OpChunk(st, c, j, CodePol("chunk", st)))
 TargetIter  == Can("titer") /\ \E j \in 1..NT(st) : Do("titer", OpTargetIter(st, j, CodePol("titer", st)))
 FeatureIter == Can("fiter") /\ \E j \in 1..NF(st) : Do("fiter", OpFeatureIter(st, j, CodePol("fiter", st)))
-MapT    == Can("map") /\ \E nm \in {"inc", "half"} : Do("map", OpMap(st, nm, CodePol("map", st)))
+MapT    == Can("map") /\ \E nm \in {"inc", "half", "rot"} : Do("map", OpMap(st, nm, CodePol("map", st)))
 ToOwned == Can("toowned") /\ Do("toowned", OpToOwned(st, CodePol("toowned", st)))
 Single  == Can("single") /\ Do("single", OpSingle(st, CodePol("single", st)))
 
